@@ -8,13 +8,20 @@ def checks():
     return {c.pid: c for c in cs}
 
 
+def extras():
+    """checks beyond the listed properties (not in MANIFEST.json)"""
+    from .checks import extras as ex
+    return {c.pid: c for c in [ex.X01()]}
+
+
 def not_applicable():
     """properties not claimed, with the reason"""
     return {}
 
 
 def main(pid, tier, seed, replay, selftest=False):
-    cs = checks()
+    cs = dict(checks())
+    cs.update(extras())
     if pid not in cs:
         print("unknown property " + pid, file=sys.stderr)
         return 2
